@@ -137,7 +137,8 @@ def is_iterable(obj: Any) -> bool:
 
     :param obj: The object to check.
     """
-    return hasattr(obj, "__iter__") and not isinstance(
+    # asked of the class, like iter() does: asking the object would run the __getattr__ of a user's object
+    return hasattr(type(obj), "__iter__") and not isinstance(
         obj, (str, type, bytes, bytearray)
     )
 
